@@ -697,6 +697,15 @@ def t13(ctx, rid):
     c10.b6(ctx, rid)
 
 
+def t14(ctx, rid):
+    """answers do not depend on which blob is the active one: the cross-blob merge counts the active blob (C02.U14 instances); the
+    tree serializer's two layer passes agree (C09.P7 instance)"""
+    import props.c02 as c02
+    import props.c09 as c09
+    c02.u14(ctx, rid)
+    c09.p7(ctx, rid)
+
+
 RULES = [
     Rule('C04.T1', 'every value stored into the active-blob slot is certified to have an in-memory index (open_new, load_index ok, or popped after load_index ok on the last element)', t1, 7),
     Rule('C04.T2', 'every index push is dominated by an InMemory-establishing event, in the body or in every caller, or acts on the active-blob slot', t2, 3),
@@ -710,5 +719,6 @@ RULES = [
     Rule('C04.T11', 'the point lookup consults every candidate closed blob before it returns Ok (C02.U6 instances)', t11, 1),
     Rule('C04.T12', 'cursors over the on-disk leaf region move by whole record headers (alignment domain)', t12, 4),
     Rule('C04.T13', 'the filters a closed blob is merged into stay a superset of it; buffers are off-loaded only from on-disk indexes (C10.B9/B6 instances)', t13, 3),
+    Rule('C04.T14', 'the active blob is counted as a source of the cross-blob merge; the serializer layer passes agree (C02.U14 / C09.P7 instances)', t14, 3),
     Rule('C04.T6', 'the closed-blob vector (child ids are positions) is never shrunk', t6, 4),
 ]
